@@ -3,7 +3,7 @@ from ..mux import FlowSpec
 from . import C12
 
 SPEC = make("C03", "Properties.C03", ['C03_no_overrun', 'C03_window_respected', 'C03_credit_equation', 'C03_one_write_one_credit', 'C03_write_refused_no_effect', 'C03_reachable_inv',
-                                      'C03_racing_writers_conservation', 'C03_racing_writers_no_overdraw', 'C03_racing_writer_takes_one', 'C03_write_projects', 'C03_acknowledge_projects', 'C03_push_projects'],
+                                      'C03_racing_writers_conservation', 'C03_racing_writers_no_overdraw', 'C03_racing_writer_takes_one', 'C03_write_projects', 'C03_acknowledge_projects', 'C03_push_projects', 'C03_pair_flow_invariants'],
             [("pair", "single", 0.6), ("pair", "", 0.4)],
             COMMON_RULE + "For this property additionally: single-flow scripts (one established stream, then only reads / "
             "plain, vectored and empty writes / shutdowns and message-by-message deliveries, 40-120 labels) whose read and "
